@@ -198,10 +198,11 @@ PROPS["C10"] = {
 
 PROPS["C08"] = {
     "engine": "net", "properties_file": "Properties/C08.v", "env": {"TZ": "UTC"}, "race": True,
-    "model_files": ["Model/Driver.v", "Model/Cases08.v"],
-    "technique": "Coq: timed model of the fixed-bind-port lock/deadline protocol, own-reply theorem for any number of calls in any service order (refuted for the pre-repair policy); real driver against a loopback controller farm whose reply is a function of the request; Go race detector run",
-    "level_text": "PARTIAL. Proved on the timed model (mutex serving order arbitrary; deadline after the lock; a datagram addressed to the port goes to whoever holds it): every call whose controller answers within T of the request being sent returns its own reply, for any number of calls, however long each waited for the port; the pre-repair policy (deadline before the lock) is refuted by a three-call witness. Tie: the real ut0311 driver against a loopback UDP/TCP controller farm that echoes the request's index, 2-8 (thorough up to 24) goroutines per scenario on one client, mixed broadcast / connected-UDP / TCP paths, bind port 0 and a fixed bind port, reply delays 0..185 ms with T = 300 ms; outcome per call (own / crossed / time-out) compared with the model in the order in which the farm saw the requests; a failing scenario is re-run and reported only if it fails twice. The same load plus discovery while replies are arriving and listener start/stop cycles runs in a child process built with -race; any report with a frame inside the library is a violation.",
-    "level_note": "Not a theorem: memory-level interleavings of the real binary, goroutine scheduling, kernel UDP queues (exercised, not proved); the lock-set discipline of the source is checked by the race detector only (the planned skeleton extractor was not built). Replies that arrive after their call has given up are delivered to the next holder of a shared port - inherent to the protocol, modelled, and outside what the property quantifies over (delays below the timeout). F9 (race on the reply list in Broadcast) and F10 (deadline taken before the lock) were found by this check and repaired.",
+    "model_files": ["Model/Driver.v", "Model/Cases08.v", "Model/Sync.v", "Gen/SyncSkeleton.v"],
+    "gen_obligations": ["Proofs/SyncProofs.v:skeleton_disciplined (the synchronisation skeleton extracted from uhppote/*.go now satisfies the lock-set discipline)"],
+    "technique": "Coq: timed model of the fixed-bind-port lock/deadline protocol, own-reply theorem for any number of calls in any service order (refuted for the pre-repair policy); lock-set discipline proved sound in a trace model of mutexes and decided on the synchronisation skeleton the translator extracts from the source; real driver against a loopback controller farm whose reply is a function of the request; Go race detector run",
+    "level_text": "PARTIAL. Proved on the timed model (mutex serving order arbitrary; deadline after the lock; a datagram addressed to the port goes to whoever holds it): every call whose controller answers within T of the request being sent returns its own reply, for any number of calls, however long each waited for the port; the pre-repair policy (deadline before the lock) is refuted by a three-call witness. Tie: the real ut0311 driver against a loopback UDP/TCP controller farm that echoes the request's index, 2-8 (thorough up to 24) goroutines per scenario on one client, mixed broadcast / connected-UDP / TCP paths, bind port 0 and a fixed bind port, reply delays 0..185 ms with T = 300 ms; outcome per call (own / crossed / time-out) compared with the model in the order in which the farm saw the requests; a failing scenario is re-run and reported only if it fails twice. The same load plus discovery while replies are arriving and listener bursts runs in a child process built with -race; any report with a frame inside the library is a violation. Static half: the translator extracts, for every function of package uhppote that starts goroutines, each variable assigned inside a goroutine or after the first go statement with all its accesses (thread, read/write, mutexes lexically held); Coq decides the lock-set discipline on it (generated obligation C08_source_disciplined; the pre-repair Broadcast is rejected) and proves the discipline sound: in every valid trace two accesses made under the same mutex are separated by Unlock-then-Lock, i.e. ordered by happens-before.",
+    "level_note": "Not a theorem: memory-level interleavings of the real binary, goroutine scheduling, kernel UDP queues (exercised, not proved); the static skeleton is lexical (variables of the goroutine-starting function, mutexes locked in the same statement list) - sharing through pointers sent over channels or through struct fields is seen by the race detector only; the closed flag of ut0311.Listen is a reviewed exception (ordered by the socket close). Replies that arrive after their call has given up are delivered to the next holder of a shared port - inherent to the protocol, modelled, and outside what the property quantifies over (delays below the timeout). F9 (race on the reply list in Broadcast) and F10 (deadline taken before the lock) were found by this check and repaired.",
     "rule": "scenarios alternate fixed / port-0; non-trivial = every scenario (>= 2 concurrent calls); distinct = distinct Coq case terms; call totals and the race-detector summary under coverage.extra.",
     "trusted_base": NET_TRUST,
 }
